@@ -476,7 +476,7 @@ def finish(res, lean, rule, level='proof', checker_cmd=None, extra_cov=None):
     return 1 if violations else 0
 
 
-def kdiff(res, lean, impl_bin, lines, oracle=None, classify=None, unspecified=None, tag=''):
+def kdiff(res, lean, impl_bin, lines, oracle=None, classify=None, unspecified=None, tag='', canon=None):
     """Run lines through impl and model drivers, compare, apply the direct oracle to every impl output.
     oracle(line, impl_out) -> None | str(detail) ; classify(line, impl_out) -> hashable non-triviality class or None."""
     impl_out = run_parallel(impl_bin, lines)
@@ -511,7 +511,7 @@ def kdiff(res, lean, impl_bin, lines, oracle=None, classify=None, unspecified=No
                 if io.startswith(('ASAN', 'UBSAN', 'HANG', 'CRASH', 'TERMINATE')):
                     res.failures.append({'kind': 'oracle', 'case': line, 'detail': 'sanitizer/hang outcome: ' + io, 'impl': io})
                 continue
-            if mo != io:
+            if mo != (canon(io) if canon else io):
                 res.failures.append({'kind': 'kdiff', 'case': line,
                                      'detail': 'K-diff: model=%s impl=%s' % (mo[:300], io[:300])})
     return impl_out, model_out
@@ -528,7 +528,7 @@ def corpus_lines(prop):
 
 
 def standard_run(prop, tier, modules, theorems, gen, oracle, classify, rule, assumptions,
-                 driver=('drv_main', None), unspecified=None, extra=None, extra_cov=None):
+                 driver=('drv_main', None), unspecified=None, extra=None, extra_cov=None, canon=None):
     from vlib import drivers
     res = Result(prop, tier)
     rnd = random.Random(seed() * 7919 + int(prop[1:]))
@@ -541,7 +541,7 @@ def standard_run(prop, tier, modules, theorems, gen, oracle, classify, rule, ass
         res.failures.append({'kind': 'kdiff', 'detail': 'cannot build implementation driver: ' + err})
         return finish(res, lean, 'build failed')
     lines = corpus_lines(prop) + gen(tier, rnd)
-    kdiff(res, lean, drv, lines, oracle=oracle, classify=classify, unspecified=unspecified)
+    kdiff(res, lean, drv, lines, oracle=oracle, classify=classify, unspecified=unspecified, canon=canon)
     if extra:
         extra(res, lean, drv, tier, rnd)
     if res.failures and tier != 'thorough' and not [f for f in res.failures if f['kind'] == 'oracle']:
